@@ -160,3 +160,5 @@ def error_on_exception(emit):
         yield
     except model.ParseError as e:
         emit.error('\n'.join(('%s: error: %s' % err for err in e.errors)))
+    except model.ModelError as e:
+        emit.error(str(e))
